@@ -24,7 +24,7 @@ def main():
             continue
         meta = json.load(open(os.path.join(d, 'meta.json')))
         shutil.rmtree(SCRATCH, ignore_errors=True)
-        shutil.copytree('/repo', SCRATCH, ignore=shutil.ignore_patterns('.git', '__pycache__', '*.egg-info'))
+        shutil.copytree(os.environ.get('VERIF_SRC_REPO', '/repo'), SCRATCH, ignore=shutil.ignore_patterns('.git', '__pycache__', '*.egg-info'))
         try:
             p = subprocess.run(['patch', '-p1', '-s', '-i', os.path.join(d, 'patch.diff')], cwd=SCRATCH, capture_output=True, text=True)
             if p.returncode != 0:
